@@ -130,6 +130,7 @@ fn stepwise(e: &E, stmts: &mut Vec<String>, n: &mut usize) -> String {
 
 impl UnitRunner for C02 {
   fn unit(&mut self, _payload: &str, unit: u64, out: &mut WorkerOut) {
+    if _payload == "resolve" { return resolve_unit(unit, out); }
     let seqs = C02::sequences(self.tier);
     let ops = &seqs[unit as usize];
     let k = ops.len();
@@ -234,8 +235,52 @@ impl Check for C02 {
       if tier == Tier::Thorough { " plus every 4-operator sequence over {+,-,*,/,^,<,&&}" } else { "" }, n, tier.pick(2, 3));
     rep.assumptions = vec!["operators are written with blanks on both sides; matrix/set/table/range operators are not part of the chains".into()];
     rep.cov("bounds", json!({"sequences": n, "operators": OPS}));
-    drive_ranges(cfg, rep, range_jobs("", n, 4));
+    let mut jobs = range_jobs("", n, 4);
+    jobs.extend(range_jobs("resolve", RESOLVE_OPS.len() as u64 * RESOLVE_OPS.len() as u64, 6));
+    drive_ranges(cfg, rep, jobs);
     let pairs = rep.out.sets.get("discriminated_level_pairs").map(|s| s.len()).unwrap_or(0);
     if pairs < 18 { rep.vacuity.push(format!("only {} of the 25 level pairs had groupings with different values", pairs)); }
+  }
+}
+
+pub const RESOLVE_OPS: [&str; 6] = ["+", "-", "*", "/", "^", "%"];
+
+/// A chain of two (and, with a third fixed operator, three) operators over a mutable operand, the operand reassigned, the plan re-solved
+/// once: the formula must then have the value of the same formula over the new operand (or still the old one) - the grouping a formula
+/// was parsed with holds every time it is evaluated, not only the first.
+fn resolve_unit(unit: u64, out: &mut WorkerOut) {
+  let n = RESOLVE_OPS.len() as u64;
+  let (o1, o2) = (RESOLVE_OPS[(unit / n) as usize % RESOLVE_OPS.len()], RESOLVE_OPS[(unit % n) as usize]);
+  let consts = ["7", "2", "3", "5"];
+  let fresh = |text: &str| -> Option<crate::canon::Canon> { let mut s = Session::new(); match s.run(&format!("y := {}", text)) { Outcome::Value(_) => s.get("y"), _ => None } };
+  for third in [None, Some("-"), Some("*")] {
+    let nops = if third.is_some() { 3 } else { 2 };
+    for pos in 0..=nops {
+      for (v0, v1) in [("4", "9"), ("6", "1")] {
+        let ops: Vec<&str> = match third { Some(t) => vec![o1, o2, t], None => vec![o1, o2] };
+        let render = |mval: &str| -> String { let mut t = String::new(); let mut ci = 0; for i in 0..=nops { let operand = if i == pos { mval.to_string() } else { let c = consts[ci % consts.len()]; ci += 1; c.to_string() }; if i > 0 { t.push_str(&format!(" {} ", ops[i - 1])); } t.push_str(&operand); } t };
+        let chain = render("m");
+        let (want_old, want_new) = (fresh(&render(v0)), fresh(&render(v1)));
+        let (Some(want_old), Some(want_new)) = (want_old, want_new) else { out.count("resolve_chain_not_evaluable"); continue; };
+        let mut s = Session::new();
+        out.evaluations += 1;
+        if !s.run(&format!("~m := {}", v0)).is_value() || !s.run(&format!("y := {}", chain)).is_value() { out.count("resolve_setup_rejected"); continue; }
+        let case = format!("~m := {} ; y := {} ; m = {} ; step(0,1)", v0, chain, v1);
+        let locus = format!("{}-{}{}:operand-{}", class(o1), class(o2), third.map(|t| format!("-{}", class(t))).unwrap_or_default(), pos);
+        if s.get("y").as_ref() != Some(&want_old) { out.fail(format!("C02|resolve-first-value|{}", locus), case, format!("with literals {:?}, with the mutable operand {:?}", want_old.short(), s.get("y").map(|c| c.short()))); continue; }
+        if !s.run(&format!("m = {}", v1)).is_value() { out.count("resolve_assignment_rejected"); continue; }
+        match std::panic::catch_unwind(std::panic::AssertUnwindSafe(|| s.intrp.step(0, 1))) {
+          Ok(Ok(_)) => {
+            out.nontrivial += 1;
+            let got = s.get("y");
+            if got.as_ref() == Some(&want_new) { out.count("resolve_recomputed"); }
+            else if got.as_ref() == Some(&want_old) { out.count("resolve_kept_old_value"); }
+            else { out.fail(format!("C02|regrouped-after-resolve|{}", locus), case, format!("the formula over m = {} is {}, over m = {} it is {}; after the re-solve y holds {:?}", v0, want_old.short(), v1, want_new.short(), got.map(|c| c.short()))); }
+          }
+          Ok(Err(_)) => out.count("resolve_step_rejected"),
+          Err(e) => out.fail(format!("C02|panic|resolve:{}", locus), case, crate::subject::panic_msg(e)),
+        }
+      }
+    }
   }
 }
